@@ -16,8 +16,9 @@ the endpoint was seen to do right after it: request transmissions and returns of
 * a call returns at most once (`doubleReturn`) and a successful return carries a response that really
   came back for that request (`spuriousSuccess`) — so neither exhaustion nor a reset produces success;
 * if the matching acknowledgement — or the matching response itself, which is an implicit acknowledgement
-  (RFC 7252 §5.2.2) — came back while the request was still being (re)transmitted and not all
-  `1 + MAX_RETRANSMIT` copies had been sent yet, then as soon as the response is there (same message or
+  (RFC 7252 §5.2.2) — came back while the request was still being (re)transmitted and the attempts were not
+  exhausted (not all `1 + MAX_RETRANSMIT` copies sent yet, or all sent and the answer within the window of the
+  last copy: `notExhausted`), then as soon as the response is there (same message or
   later) the call returns it (`noSuccess`), unless the caller cancelled first; no copy follows that response;
 * never more than NSTART requests transmitted and neither acknowledged/reset nor returned (`nstart`).
 -/
@@ -75,7 +76,8 @@ structure Rec where
   t0 : Nat := 0               -- time of the first
   stopped : Bool := false     -- ack / reset / cancel / return seen: no further copy allowed
   acked : Bool := false       -- a message with its ID came back (ack, reset, piggybacked response)
-  inTime : Bool := false      -- … an acknowledgement, while fewer than 1 + MAX copies had been sent
+  inTime : Bool := false      -- … an acknowledgement / response that came back before the attempts were exhausted
+  passSince : Bool := false   -- a housekeeping pass has run since the most recent copy of this request was sent
   cancelled : Bool := false
   returned : Bool := false
   resps : List Nat := []      -- responses that came back, oldest first
@@ -91,6 +93,15 @@ structure JState where
 def getRec (s : JState) (id : Nat) : Option Rec := s.recs.find? (·.id == id)
 def setRec (s : JState) (r : Rec) : JState := { s with recs := s.recs.map (fun x => if x.id == r.id then r else x) }
 
+/-- The attempts are not exhausted yet when the answer arrives: fewer than `1 + MAX_RETRANSMIT` copies were sent, or
+    all were sent and the answer arrives within the window of the LAST copy — RFC 7252 §4.2: the sender waits for the
+    acknowledgement of its last retransmission until the next retransmission would have been due
+    (`t0 + (MAX+1)·ACK_TIMEOUT`).  Expiry can only be noticed by a housekeeping pass; this judge demands the window
+    only as long as no pass has run since the last copy was sent (see docs/notes/C06.md, O-C06-2). -/
+def notExhausted (c : Cfg) (now : Nat) (r : Rec) : Bool :=
+  r.count ≤ c.maxRetransmit ||
+  (r.count == c.maxRetransmit + 1 && !r.passSince && now ≤ r.t0 + (c.maxRetransmit + 1) * c.ackTimeout)
+
 def live (now : Nat) (r : Rec) : Bool :=
   !r.cancelled && !r.returned && (match r.deadline with | some d => now < d | none => true)
 
@@ -102,7 +113,9 @@ def applyEv (c : Cfg) (s : JState) : Ev → JState × Option (Nat × Nat)
   | .sleep d => ({ s with now := s.now + d }, none)
   | .tick ahead =>
     -- a request whose deadline lies before the housekeeping clock counts as given up by its caller
-    ({ s with recs := s.recs.map (fun r => match r.deadline with
+    ({ s with recs := s.recs.map (fun r =>
+        let r := { r with passSince := true }
+        match r.deadline with
         | some d => if s.now + ahead > d then { r with cancelled := true } else r
         | none => r) }, none)
   | .mut id =>
@@ -120,7 +133,7 @@ def applyEv (c : Cfg) (s : JState) : Ev → JState × Option (Nat × Nat)
       else
       let first := !r.stopped
       let isAck := match k with | .rst => false | _ => true
-      let inTime := r.inTime || (first && isAck && r.count ≤ c.maxRetransmit)
+      let inTime := r.inTime || (first && isAck && notExhausted c s.now r)
       let resps := match k with | .pig tag => r.resps ++ [tag] | _ => r.resps
       let r' := { r with stopped := true, acked := true, inTime := inTime, resps := resps }
       let due := if inTime && live s.now r then resps.head?.map (fun tag => (id, tag)) else none
@@ -134,7 +147,7 @@ def applyEv (c : Cfg) (s : JState) : Ev → JState × Option (Nat × Nat)
       -- the matching response is an implicit acknowledgement (RFC 7252 5.2.2): it counts as "got back in time" when it
       -- is the first thing to come back and fewer than 1 + MAX copies were sent; no copy may follow it
       let first := !r.stopped
-      let inTime := r.inTime || (first && r.count ≤ c.maxRetransmit)
+      let inTime := r.inTime || (first && notExhausted c s.now r)
       let r' := { r with stopped := true, inTime := inTime, resps := r.resps ++ [tag] }
       let due := if inTime && live s.now r then r'.resps.head?.map (fun tag => (id, tag)) else none
       (setRec s r', due)
@@ -148,7 +161,7 @@ def checkTx (c : Cfg) (s : JState) (x : Tx) : JState × Verdict :=
     else if r.count ≥ 1 + c.maxRetransmit then (s, .tooMany)
     else if r.count ≥ 1 && x.t < r.t0 + r.count * c.ackTimeout then (s, .tooEarly)
     else if !x.same && !r.misused then (s, .notIdentical)
-    else (setRec s { r with count := r.count + 1, t0 := if r.count = 0 then x.t else r.t0 }, .ok)
+    else (setRec s { r with count := r.count + 1, t0 := if r.count = 0 then x.t else r.t0, passSince := false }, .ok)
 
 def checkRet (s : JState) (x : Ret) : JState × Verdict :=
   match getRec s x.id with
